@@ -28,6 +28,9 @@ type Scanner struct {
 	lastDirectiveParameters []*Lexeme
 	curIndex                bytes.Index
 	dataSize                bytes.Index
+
+	// verif holds verification-hook state (empty unless built with the verif tag).
+	verif verifState
 }
 
 func NewJApiScanner(file *fs.File) *Scanner {
@@ -73,6 +76,7 @@ func (s *Scanner) Next() (*Lexeme, *jerr.JApiError) {
 			}
 		}
 
+		s.verifStep(c)
 		je := s.step(s, c) // evaluate byte
 		if je != nil {
 			return nil, je
